@@ -19,6 +19,7 @@ type vsec struct {
 	failSet  bool
 	errCount int
 	sets     int
+	failed   map[int]bool
 }
 
 func (s *vsec) Get(key int) (int, int64, int64, bool, error) {
@@ -35,6 +36,10 @@ func (s *vsec) Set(key int, value int, cost int64, expire int64) error {
 	defer s.mu.Unlock()
 	s.sets++
 	if s.failSet {
+		if s.failed == nil {
+			s.failed = map[int]bool{}
+		}
+		s.failed[key] = true
 		return errors.New("secondary set failed")
 	}
 	s.m[key] = [3]int64{int64(value), cost, expire}
@@ -320,6 +325,31 @@ func TestVerifHybrid(t *testing.T) {
 		s.RangeEntry(func(e *Entry[int, int]) { resident += e.weight.Load() })
 		if resident > size {
 			tr.viol(fmt.Sprintf("C15: resident cost %d above MaxSize %d after the workers caught up (secondary errors %d)", resident, size, sec.errCount))
+		}
+		// C15: nothing stored without a deadline and never deleted may be in neither tier, unless the
+		// secondary store refused it
+		{
+			skeys := make([]int, 0, len(shadow))
+			for k := range shadow {
+				skeys = append(skeys, k)
+			}
+			sort.Ints(skeys)
+			for _, k := range skeys {
+				if shadowExp[k] != 0 || sec.failed[k] {
+					continue
+				}
+				_, idx := s.index(k)
+				if e := s.shards[idx].hashmap[k]; e != nil && e.value == shadow[k] {
+					continue
+				}
+				sec.mu.Lock()
+				se, ok := sec.m[k]
+				sec.mu.Unlock()
+				if ok && int(se[0]) == shadow[k] {
+					continue
+				}
+				tr.viol(fmt.Sprintf("C15: key %d (last stored value %d, no deadline, never deleted) is in neither tier after the workers caught up", k, shadow[k]))
+			}
 		}
 		tr.op("views", ss("6"), ss(i64(int64(s.Len())), i64(int64(s.EstimatedSize())), u(s.Stats().Hits()), u(s.Stats().Misses()), "0"))
 		close(caseDone)
